@@ -49,6 +49,12 @@ pub struct Cfg {
     pub max_loop_iters: i64,
     /// integer literals include i64 boundaries
     pub int_boundaries: bool,
+    /// generate the recursive-function templates
+    pub recursion: bool,
+    /// branches of value-ifs/match arms may end in a nested block, a let or nothing (C07)
+    pub odd_branches: bool,
+    /// allow break/continue inside operand positions (C07)
+    pub jumps_in_operands: bool,
 }
 
 impl Default for Cfg {
@@ -68,6 +74,9 @@ impl Default for Cfg {
             probes: true,
             max_loop_iters: 5,
             int_boundaries: true,
+            recursion: true,
+            odd_branches: false,
+            jumps_in_operands: false,
         }
     }
 }
@@ -744,7 +753,27 @@ impl<'a, 'b> Gen<'a, 'b> {
                 b.push(s);
             }
         }
-        b.push(S::Expr(self.expr(ty, depth)));
+        if self.cfg.odd_branches && self.c.below(4) == 0 {
+            // a branch that does not end in an expression statement (its value is null)
+            match self.c.below(4) {
+                0 => {}
+                1 => {
+                    let e = self.expr(ty, depth);
+                    b.push(S::Block(vec![S::Expr(e)]));
+                }
+                2 => {
+                    let e = self.expr(ty, depth);
+                    let n = self.fresh_name("u");
+                    b.push(S::Let(n, e));
+                }
+                _ => {
+                    let e = self.expr(ty, depth);
+                    b.push(S::Block(vec![S::Block(vec![S::Expr(e)]), S::Block(vec![])]));
+                }
+            }
+        } else {
+            b.push(S::Expr(self.expr(ty, depth)));
+        }
         self.no_jump -= 1;
         self.pop_block();
         b
@@ -1003,8 +1032,8 @@ impl<'a, 'b> Gen<'a, 'b> {
                 self.declare(&name, fty, false);
                 S::FnDef(name, params, body)
             }
-            18 if self.cfg.closures && self.fn_depth < self.cfg.max_fn_nesting => self.recursive_fn(),
-            19 if self.in_loop() && (self.no_jump == 0 || self.jumps_in_operands) => {
+            18 if self.cfg.closures && self.cfg.recursion && self.fn_depth < self.cfg.max_fn_nesting => self.recursive_fn(),
+            19 if self.in_loop() && (self.no_jump == 0 || self.jumps_in_operands || self.cfg.jumps_in_operands) => {
                 self.kind("break-continue");
                 let labels: Vec<Option<String>> = self.loops.last().unwrap().clone();
                 let named: Vec<String> = labels.iter().flatten().cloned().collect();
@@ -1229,6 +1258,35 @@ impl<'a, 'b> Gen<'a, 'b> {
             v.push(S::Expr(call("push", vec![id("obs"), E::Call(Box::new(id(&cn)), vec![])])));
         }
         S::Block(vec![]).then(v)
+    }
+
+    /// a counter loop of `iters` iterations around generated statements (C07)
+    pub fn long_loop(&mut self, iters: i64) -> Vec<S> {
+        let counter = self.fresh_name("k");
+        self.push_block();
+        self.declare(&counter, Ty::Int, false);
+        self.loops.last_mut().unwrap().push(None);
+        self.push_block();
+        let mut body = vec![S::Expr(assign(id(&counter), bin("+", id(&counter), E::Int(1))))];
+        let n = 1 + self.c.below(4);
+        for _ in 0..n {
+            if let Some(s) = self.stmt() {
+                push_flat(&mut body, s);
+            }
+        }
+        self.pop_block();
+        self.loops.last_mut().unwrap().pop();
+        self.pop_block();
+        vec![S::Let(counter.clone(), E::Int(0)), S::While(None, bin("<", id(&counter), E::Int(iters)), body)]
+    }
+
+    pub fn declare_prologue(&mut self) {
+        self.declare("obs", Ty::Fn(99, Box::new(Ty::Null)), false);
+        self.declare("t", Ty::Fn(98, Box::new(Ty::Null)), false);
+    }
+
+    pub fn set_budget(&mut self, n: usize) {
+        self.stmts_left = n;
     }
 
     /// whole program: prologue, statements, final expression statement
